@@ -1943,6 +1943,7 @@ int parse_instruction_68000(AsmContext *asm_context, char *instr)
               else
             {
               print_error_unexp(asm_context, token);
+              return -1;
             }
           }
             else
